@@ -21,16 +21,18 @@
    the outer cell of a switch_s) are read through `cur`, the value before the transaction.  The rule
    `Frule st n` transliterates the update closures of /repo/src/impl_/stream.rs and cell.rs.
 
-   switch_s (/repo/src/impl_/cell.rs `switch_s`): the inner node depends on (a) the stream the outer
-   cell holds - re-wired only in `pre_post`, AFTER propagation, so during one transaction it is the stream
-   held when the transaction started, `cur st c = VRef m` - and (b) the outer node, which depends on the
-   outer cell's update stream.  The inner node's closure forwards the firing of the current inner stream
-   and ignores the outer one.  Hence `ndeps st s = [m; c]` and the rule is "first input".  The next
-   transaction's graph is compiled from the committed state, i.e. from the new value of the outer cell.
-   NOTE: acyclicity of `ndeps` (hypothesis `acyclic` of the theorems) therefore also demands that the
-   outer cell's update does not depend, within the same transaction, on the switch's own output.  That
-   excludes exactly the implementation's known defect with a cyclic outer cell (the specification's
-   `occ (DSwitchS c)` does not read `upd c`, the implementation's node does depend on it).
+   switch_s (/repo/src/impl_/cell.rs `switch_s`): the inner node depends on the stream the outer cell holds
+   - re-wired only in `pre_post`, AFTER propagation, so during one transaction it is the stream held when
+   the transaction started, `cur st c = VRef m` - and on nothing else.  It only keeps the outer node (which
+   depends on the outer cell's update stream and schedules the re-wiring) alive, through a handle owned by
+   its update closure and declared to the tracer, WITHOUT depending on it.  The inner node's closure
+   forwards the firing of the current inner stream.  Hence `ndeps st s = [m]` and the rule is "forward the
+   single input".  The next transaction's graph is compiled from the committed state, i.e. from the new
+   value of the outer cell.
+   NOTE: the switch reads the outer cell as of the START of the transaction (`cur`), like the
+   specification's `occ (DSwitchS c)`, which does not read `upd c`; therefore it does not depend on the
+   outer cell's update, and a program whose outer cell is updated, within the same transaction, from the
+   switch's own output is acyclic (example `cy_st` of Proofs/NetRefine.v, Props/K1.v).
 
    switch_c (/repo/src/impl_/cell.rs `switch_c`): the node of `DSwitchC c` stands for the pair outer node /
    inner node of the implementation.  Its static dependencies are the outer cell c (its update stream) and
@@ -124,8 +126,8 @@ Definition ddeps (st : state) (n : nat) (d : def) : list nat :=
   | DRoute r _ => match alookup (defs st) r with Some (DRouter a _) => [a] | _ => [] end
   (* value() = updates().or_else(spark.map(run)); the spark exists only in the creating transaction *)
   | DValue c => if amem (fresh st) n then [c; spark st n] else [c]
-  (* the stream held at the start of the transaction, and the outer node *)
-  | DSwitchS c => match cur st (F st) c with EV (VRef m) => [m; c] | _ => [c] end
+  (* the stream held at the start of the transaction; NOT the outer cell, which is only sampled *)
+  | DSwitchS c => match cur st (F st) c with EV (VRef m) => [m] | _ => [] end
   (* the outer cell, and the cell held at the start of the transaction *)
   | DSwitchC c => match cur st (F st) c with EV (VRef i) => [c; i] | _ => [c] end
   (* sinks, never, constants, and defer / split (sinks of their own deferred transactions): sources *)
@@ -179,7 +181,7 @@ Definition Frule (st : state) : rule val := fun n ins exs =>
     | DSnapshot _ cs f => match o with Some v => Some (appN f (v :: map (curv st) cs)) | None => None end
     | DGate _ c => match o with Some v => if truthy (curv st c) then Some v else None | None => None end
     | DOnce _ | DUpdates _ | DSLoop | DRouter _ _ | DHold _ | DCLoop => o     (* forwarders *)
-    | DSwitchS _ => o               (* inputs [current inner stream; outer]: forward the inner firing *)
+    | DSwitchS _ => o               (* single input, the current inner stream: forward its firing *)
     | DSwitchC _ =>                 (* inputs [outer; current inner cell], demanded [new inner cell] *)
       match o with
       | Some (VRef m) => Some (match nth 0 exs None with Some u => u | None => curv st m end)
